@@ -60,6 +60,31 @@ func ValOfAPI(tv *configapi.TypedValue) refmodel.Val {
 			parts = append(parts, "u:"+strconv.FormatUint(x, 10))
 		}
 		return refmodel.Val("l:" + strings.Join(parts, "\x1f"))
+	case configapi.ValueType_LEAFLIST_BOOL:
+		var parts []string
+		for _, x := range (*configapi.TypedLeafListBool)(tv).List() {
+			parts = append(parts, "b:"+strconv.FormatBool(x))
+		}
+		return refmodel.Val("l:" + strings.Join(parts, "\x1f"))
+	case configapi.ValueType_LEAFLIST_BYTES:
+		var parts []string
+		for _, x := range (*configapi.TypedLeafListBytes)(tv).List() {
+			parts = append(parts, "y:"+hex.EncodeToString(x))
+		}
+		return refmodel.Val("l:" + strings.Join(parts, "\x1f"))
+	case configapi.ValueType_LEAFLIST_DECIMAL:
+		digits, p := (*configapi.TypedLeafListDecimal)(tv).List()
+		var parts []string
+		for _, d := range digits {
+			parts = append(parts, fmt.Sprintf("d:%d:%d", d, p))
+		}
+		return refmodel.Val("l:" + strings.Join(parts, "\x1f"))
+	case configapi.ValueType_LEAFLIST_FLOAT:
+		var parts []string
+		for _, f := range (*configapi.TypedLeafListFloat)(tv).List() {
+			parts = append(parts, fmt.Sprintf("f:%08x", math.Float32bits(f)))
+		}
+		return refmodel.Val("l:" + strings.Join(parts, "\x1f"))
 	}
 	return refmodel.Val("?:" + tv.ValueToString())
 }
